@@ -23,7 +23,7 @@ for s in $ids; do
   REPO_ROOT=$DET/repo VERIF_ROOT=$DET/verif VERIF_TAG="@regression" python3 /verif/lib/seedeval.py detect $s 2>&1 | tail -1 | cut -c1-300 >> $out
 done
 # changes whose demonstration targets one property but whose mechanism belongs to a sibling property
-declare -A SIB=( [C04-2B]=C09 [C06-2B]=C02 [C06-B]=C08 [C12-2B]=C11 [C06-3A]=C03 [C07-4A]=C01 [C12-5B]=C11 [C14-5A]=C02 [C14-5B]=C03 [C01-6A]=C08 )
+declare -A SIB=( [C04-2B]=C09 [C06-2B]=C02 [C06-B]=C08 [C12-2B]=C11 [C06-3A]=C03 [C07-4A]=C01 [C12-5B]=C11 [C14-5A]=C02 [C14-5B]=C03 [C01-6A]=C08 [C04-6A]=C03 [C04-6B]=C09 )
 for s in "${!SIB[@]}"; do
   if echo " $ids " | grep -q " $s "; then
     REPO_ROOT=$DET/repo VERIF_ROOT=$DET/verif VERIF_TAG="@regression" python3 /verif/lib/seedeval.py detect $s ${SIB[$s]} 2>&1 | tail -1 | cut -c1-300 >> $out
